@@ -142,6 +142,8 @@ def run(prog: Program, ctx: Ctx) -> None:  # noqa: PLR0912,PLR0915
         '__all__ = ["a"]\nother = ["z"]\nother += ["y"]': ["a"],
         '__all__ = ["a"]\nclass K:\n    pass\nK.__all__ = ["q"]': ["a"],
         '__all__ = ["a"]\n__all__ = ["b"]': ["b"],
+        '__all__ = ["a"]\n__all__ = __all__ + ["g"]': ["a", "g"],
+        '__all__ = ["a"]\n__all__ = ["z"] + __all__': ["z", "a"],
         '__all__: list[str] = ["a"]': ["a"],
         'x = 1': None,
         '__all__ = []': [],
